@@ -33,7 +33,7 @@ import (
 // RunCmd uses Exec underneath, so see those docs for more details.
 func RunCmd(cmd string, args ...string) func(args ...string) error {
 	return func(args2 ...string) error {
-		return Run(cmd, append(args, args2...)...)
+		return Run(cmd, append(append([]string(nil), args...), args2...)...)
 	}
 }
 
@@ -41,7 +41,7 @@ func RunCmd(cmd string, args ...string) func(args ...string) error {
 // command.
 func OutCmd(cmd string, args ...string) func(args ...string) (string, error) {
 	return func(args2 ...string) (string, error) {
-		return Output(cmd, append(args, args2...)...)
+		return Output(cmd, append(append([]string(nil), args...), args2...)...)
 	}
 }
 
@@ -110,9 +110,11 @@ func Exec(env map[string]string, stdout, stderr io.Writer, cmd string, args ...s
 		return os.Getenv(s)
 	}
 	cmd = os.Expand(cmd, expand)
+	expanded := make([]string, len(args))
 	for i := range args {
-		args[i] = os.Expand(args[i], expand)
+		expanded[i] = os.Expand(args[i], expand)
 	}
+	args = expanded
 	ran, code, err := run(env, stdout, stderr, cmd, args...)
 	if err == nil {
 		return true, nil
